@@ -75,3 +75,130 @@ Proof.
   intros b s e new path i Hwf Hse He Hall Hn.
   apply endpoints_gen; try assumption; [| | right; exact Hn]; rewrite Hall by lia; do 2 f_equal; lia.
 Qed.
+
+(* ---- map_back_commutes:  render (apply_patch src (map_back p)) = apply_patch (render src) p ----
+   rebuild b p is the nesting b after the source Text was edited with the mapped-back patch: the Text reached
+   gets that patch applied, and every Replacer on the way keeps its patches before the edited range, moves
+   those after it by the change of length and drops those inside it.  The side condition
+   (new <> [] \/ transport_sorted) only says that the re-derived patch lists are still in sorted() order;
+   it is automatic unless the replacement text is empty. *)
+Definition map_back_commutes_statement (fixed : bool) : Prop :=
+  forall b s e new path i, wf_builder b -> 0 <= s < e -> e <= len (prender b) ->
+    (forall k, s <= k < e -> snd (znth (prender b) k dcell) = Some (path, i + (k - s))) ->
+    let p := (s, e, sub (map fst (prender b)) s e, new) in
+    new <> [] \/ transport_sorted fixed b p ->
+    exists t v p', leaf_at b path = Some (t, v) /\ map_back fixed b p = Ok (Some (t, v, p')) /\
+      wf_builder (rebuild fixed b p) /\
+      leaf_at (rebuild fixed b p) path = Some (apply_patch t (p_start p') (p_end p') (p_new p'), v) /\
+      render (rebuild fixed b p) = Ok (apply_patch (map fst (prender b)) s e new).
+
+Theorem C37_map_back_commutes : map_back_commutes_statement true.
+Proof.
+  intros b s e new path i Hwf Hse He Hall p Hts.
+  destruct (range_gen true b s e new path i (i + (e - s)) Hwf Hse He) as (t & v & Hl & Hm & Hr);
+    [rewrite Hall by lia; do 2 f_equal; lia | rewrite Hall by lia; do 2 f_equal; lia | left; reflexivity |].
+  destruct (Hr Hts) as (Hw & Hrender & Hleaf).
+  exists t, v, (i, i + (e - s), sub t i (i + (e - s)), new). repeat split; assumption.
+Qed.
+
+(* the unchanged code, away from the defect *)
+Theorem C37_map_back_commutes_partial : forall b s e new path i,
+  wf_builder b -> 0 <= s < e -> e <= len (prender b) ->
+  (forall k, s <= k < e -> snd (znth (prender b) k dcell) = Some (path, i + (k - s))) ->
+  no_entry_at_end b s e ->
+  let p := (s, e, sub (map fst (prender b)) s e, new) in
+  new <> [] \/ transport_sorted false b p ->
+  exists t v p', leaf_at b path = Some (t, v) /\ map_back false b p = Ok (Some (t, v, p')) /\
+    wf_builder (rebuild false b p) /\
+    leaf_at (rebuild false b p) path = Some (apply_patch t (p_start p') (p_end p') (p_new p'), v) /\
+    render (rebuild false b p) = Ok (apply_patch (map fst (prender b)) s e new).
+Proof.
+  intros b s e new path i Hwf Hse He Hall Hn p Hts.
+  destruct (range_gen false b s e new path i (i + (e - s)) Hwf Hse He) as (t & v & Hl & Hm & Hr);
+    [rewrite Hall by lia; do 2 f_equal; lia | rewrite Hall by lia; do 2 f_equal; lia | right; exact Hn |].
+  destruct (Hr Hts) as (Hw & Hrender & Hleaf).
+  exists t, v, (i, i + (e - s), sub t i (i + (e - s)), new). repeat split; assumption.
+Qed.
+
+(* ---- Combiner: every character lies in one part; a range that touches two parts is refused; a range
+   inside a str part gives None ---- *)
+Theorem C37_every_character_in_a_part : forall ts s, 0 <= s < len (concat ts) -> exists k, in_part ts k s.
+Proof. exact in_part_exists. Qed.
+
+Theorem C37_combiner_refuses_spanning : forall fixed ps ts p k1 k2,
+  render_parts ps = Ok ts -> in_part ts k1 (p_start p) -> in_part ts k2 (p_end p - 1) -> k1 <> k2 ->
+  map_back fixed (BCombiner ps) p = ValueError.
+Proof. exact combiner_spanning. Qed.
+
+Theorem C37_combiner_literal_none : forall fixed ps ts s e new k,
+  render_parts ps = Ok ts -> 0 <= s <= e -> e <= len (concat ts) ->
+  in_part ts k s -> in_part ts k (e - 1) -> part_is_lit ps k = true ->
+  map_back fixed (BCombiner ps) (s, e, sub (concat ts) s e, new) = Ok None.
+Proof. exact combiner_literal. Qed.
+
+(* ---- map_back_offset through a series of Replacers gives the source index of a copied character ---- *)
+Theorem C37_map_back_offset_exact : forall b k path i,
+  wf_builder b -> replacer_chain b -> 0 <= k < len (prender b) ->
+  snd (znth (prender b) k dcell) = Some (path, i) -> map_back_offset b k = Ok i.
+Proof. exact offset_exact. Qed.
+
+(* ---- make_patch / make_regexp_patches produce valid patches ---- *)
+Theorem C37_make_patch_valid : forall (t : list Z) s e new, 0 <= s <= e -> e <= len t ->
+  validate_patch t (make_patch t s e new) = true /\ p_old (make_patch t s e new) = sub t s e.
+Proof. exact make_patch_valid. Qed.
+
+Theorem C37_regexp_patches_wf : forall (t : list Z) spans ip, spans_ok (len t) ip spans ->
+  wf_from t ip (map (fun sp => make_patch t (fst (fst sp)) (snd (fst sp)) (snd sp)) spans).
+Proof. exact regexp_patches_wf. Qed.
+
+(* ---- non-vacuity: Combiner(["[", Replacer(Text("a$b c"), ["$" -> "r.", delete " "]), Text("xy"), "]"]),
+   output "[ar.bcxy]" ---- *)
+Definition C37_example : builder :=
+  BCombiner (PLit [91] (PSub (BReplacer (BText [97; 36; 98; 32; 99] 7) [(3, 4, [32], []); (1, 2, [36], [114; 46])])
+            (PSub (BText [120; 121] 8) (PLit [93] PNil)))).
+
+(* the hypotheses of C37_map_back_exact / _partial / _commutes hold for the range [5,6) = "c" (character 4 of
+   the first Text), also no_entry_at_end; both variants of the code map it to [4,5) *)
+Example C37_example_exact :
+  wf_builder C37_example /\
+  render C37_example = Ok [91; 97; 114; 46; 98; 99; 120; 121; 93] /\
+  (forall k, 5 <= k < 6 -> snd (znth (prender C37_example) k dcell) = Some ([1%nat], 4 + (k - 5))) /\
+  no_entry_at_end C37_example 5 6 /\
+  map_back false C37_example (5, 6, [99], [81]) = Ok (Some ([97; 36; 98; 32; 99], 7, (4, 5, [99], [81]))) /\
+  map_back true C37_example (5, 6, [99], [81]) = Ok (Some ([97; 36; 98; 32; 99], 7, (4, 5, [99], [81]))) /\
+  render (rebuild true C37_example (5, 6, [99], [81])) = Ok [91; 97; 114; 46; 98; 81; 120; 121; 93].
+Proof.
+  split; [cbn; repeat split; try exact I; vm_compute; discriminate|].
+  split; [vm_compute; reflexivity|].
+  split; [intros k Hk; assert (k = 5) by lia; subst k; vm_compute; reflexivity|].
+  split; [vm_compute; split; [intros [H|[H|H]]; try discriminate; exact H | exact I]|].
+  repeat split; vm_compute; reflexivity.
+Qed.
+
+(* the range [4,5) = "b" ends where " " was deleted: it comes from [2,3); the unchanged code answers [2,4), the
+   repaired code [2,3); the range [4,6) = "bc" has copied end points only (the deleted " " lies between) and
+   maps to [2,5) = "b c"; [4,7) = "bcx" touches two parts and is refused; [0,1) = "[" is a str part *)
+Example C37_example_boundary :
+  (forall k, 4 <= k < 5 -> snd (znth (prender C37_example) k dcell) = Some ([1%nat], 2 + (k - 4))) /\
+  ~ no_entry_at_end C37_example 4 5 /\
+  map_back false C37_example (4, 5, [98], [81]) = Ok (Some ([97; 36; 98; 32; 99], 7, (2, 4, [98; 32], [81]))) /\
+  map_back true C37_example (4, 5, [98], [81]) = Ok (Some ([97; 36; 98; 32; 99], 7, (2, 3, [98], [81]))) /\
+  map_back true C37_example (4, 6, [98; 99], [81]) = Ok (Some ([97; 36; 98; 32; 99], 7, (2, 5, [98; 32; 99], [81]))) /\
+  render (rebuild true C37_example (4, 6, [98; 99], [81])) = Ok [91; 97; 114; 46; 81; 120; 121; 93] /\
+  map_back true C37_example (4, 7, [98; 99; 120], [81]) = ValueError /\
+  map_back true C37_example (0, 1, [91], [81]) = Ok None.
+Proof.
+  split; [intros k Hk; assert (k = 4) by lia; subst k; vm_compute; reflexivity|].
+  split; [vm_compute; intros [H _]; apply H; right; left; reflexivity|].
+  repeat split; vm_compute; reflexivity.
+Qed.
+
+Example C37_example_offset :
+  let r := BReplacer (BReplacer (BText [97; 36; 98; 32; 99] 7) [(3, 4, [32], []); (1, 2, [36], [114; 46])])
+                     [(0, 0, [], [62])] in
+  wf_builder r /\ replacer_chain r /\ render r = Ok [62; 97; 114; 46; 98; 99] /\
+  snd (znth (prender r) 5 dcell) = Some ([], 4) /\ map_back_offset r 5 = Ok 4.
+Proof.
+  cbv zeta. split; [cbn; repeat split; try exact I; vm_compute; repeat split; discriminate|].
+  repeat split; vm_compute; reflexivity.
+Qed.
